@@ -120,6 +120,11 @@ def sym_vec(eng, tag, ids, present=None):
 def _mk_inst(eng, holder, missing_log):
     from ndn.app_support.svs.sync import SvsInst
     _patch_env(eng, holder)
+    # another instance exists in the same process (a node may take part in several sync groups) and has state of its own
+    decoy = SvsInst('/grp2', '/n/decoy', lambda i: None, None, None)
+    decoy.local_sv[b'\x07\x03\x08\x01d'] = 5
+    decoy.agg_sv[b'\x07\x03\x08\x01d'] = 5
+    holder['decoy'] = decoy
     inst = SvsInst('/grp', IDS[0], lambda i: missing_log.append(1), None, None)
     inst.ndn_app = StubApp()
     return inst
